@@ -4,6 +4,7 @@ import (
 	"context"
 	"errors"
 	"fmt"
+	"math"
 	"math/rand"
 	"slices"
 	"strings"
@@ -899,9 +900,14 @@ func (d *dealer) syncCall(caller *wamp.Session, msg *wamp.Call) {
 	// wamp.error.timeout as the reason URI.
 	if timeout > 0 {
 		// Timer removed if context canceled, call cancelled if timeout.
+		// A timeout too large to express in nanoseconds means the largest
+		// representable duration, not a wrapped (negative) one.
+		timeoutDur := time.Duration(math.MaxInt64)
+		if timeout <= math.MaxInt64/int64(time.Millisecond) {
+			timeoutDur = time.Duration(timeout) * time.Millisecond
+		}
 		var timerCtx context.Context
-		timerCtx, invk.timerCancel = context.WithTimeout(context.Background(),
-			time.Duration(timeout)*time.Millisecond)
+		timerCtx, invk.timerCancel = context.WithTimeout(context.Background(), timeoutDur)
 
 		// Start goroutine to cancel pending call on timeout. Works like Cancel
 		// with mode=killnowait, and includes an error message argument "call
